@@ -7,5 +7,13 @@ CHECKS = {
     text='Runtime contract on the real kalman.compute_process_matrices: mpmath expm and textbook-arrangement Van Loan as reference, symmetry/PSD/zero-step/purity, and the composition law over random partitions of dt driven through the monitored function.',
     ref='2/C08', technique='runtime contract vs high-precision reference model + metamorphic composition',
     note='Trusts mpmath; tolerance constants allow for the ~1e-12 relative accuracy of scipy 1.18 expm on small blocks (measured).'),
+ 'C16': dict(
+    text='Postcondition monitors on the real pyins.earth / pyins.transform geodetic functions and the compiled gravity: closed-form WGS-84 reference (mpmath on a subset), round trips, NED frame vs Richardson partials of the real lla_to_ecef, displacement ladders for perturb/difference/NED/curvature, gravity identities, latitude parity, scalar-vs-stacked forms. Held = no monitor fired on the seeded stratified point batches listed in the evidence.',
+    ref='2/C16', technique='runtime postconditions vs closed-form reference model + metamorphic relations',
+    note='Constants shared with pyins by value only; near the poles the parallel radius is allowed the conditioning error of sqrt(1-sin^2) (eps/cos lat).'),
+ 'C17': dict(
+    text='Postcondition monitors on the real mat_from_rph / mat_to_rph / compiled mat_from_rotvec / attitude block of transform_to_output: 40-digit Rz Ry Rx and Rodrigues references, orthonormality, physical sign probes, round trips with 1/cos(pitch) conditioning, dense sampling on both sides of the small-angle branch incl. a relative check of the skew part, Richardson derivative of the real Euler extraction.',
+    ref='2/C17', technique='runtime postconditions vs high-precision reference model',
+    note='Trusts mpmath at 40 digits; |pitch| <= 89.9 deg.'),
 }
 PENDING = {}
